@@ -123,6 +123,14 @@ CLAIMS = {
              'stray attachment; after each step namespaces/get_sid/connected are compared with the server view and '
              'handler invocation counts with the model. Exhaustive within those bounds.',
         ref='5 C08', technique='symbolic execution (CrossHair+z3) of the real client over bounded histories vs server-view model'),
+    'C02': dict(
+        text='A real Client/Server pair (and AsyncClient/AsyncServer) joined back to back is executed symbolically: '
+             'event name, payload form (None, scalar, tree with bytes, tuples), return form and namespace are tape '
+             'draws with symbolic leaves; handler arguments, callback arguments, call() results and handling order are '
+             'compared type-strictly with the documented packing rules, for both directions, both serializers and both '
+             'implementations, incl. two consecutive messages with suspending handlers on asyncio. msgpack values are '
+             'realised at the C boundary (enumerated small domains).',
+        ref='5 C02', technique='symbolic execution (CrossHair+z3) of real client+server joined end to end'),
 }
 
 PENDING = 'check not built yet in this tree (work in progress); no claim is made'
